@@ -21,12 +21,13 @@ type runOpts struct {
 	stateOut, stateIn string
 	keepRoot          bool
 	recover           bool
+	golden            bool
 }
 
 var opts runOpts
 
 func runHistory(root string, ops []Op, w *bufio.Writer, seed int64) (lines int, stats map[string]int) {
-	if !opts.recover {
+	if !opts.recover && !opts.golden {
 		os.RemoveAll(root)
 	}
 	if err := os.MkdirAll(root, 0700); err != nil {
@@ -39,6 +40,14 @@ func runHistory(root string, ops []Op, w *bufio.Writer, seed int64) (lines int, 
 	}
 	if opts.recover {
 		ops = recoveryOps(ex)
+	}
+	if opts.golden {
+		known := []int{}
+		for k := range ex.kmap {
+			known = append(known, k)
+		}
+		sort.Ints(known)
+		ops = goldenContinuation(profiles["golden"], seed, known)
 	}
 	done := make(chan struct{})
 	go func() {
@@ -103,13 +112,25 @@ func main() {
 	flag.StringVar(&opts.stateOut, "state-out", "", "write uuid/handle tables to this file at exit")
 	flag.StringVar(&opts.stateIn, "state-in", "", "load uuid/handle tables from this file")
 	flag.BoolVar(&opts.keepRoot, "keep", false, "keep the database directory")
+	flag.BoolVar(&opts.golden, "golden", false, "continue on a copy of a golden directory (needs -state-in): sweep, further writes, restart, sweep")
 	flag.BoolVar(&opts.recover, "recover", false, "run the recovery sequence on an existing directory (needs -state-in)")
 	sleepdiv := flag.Int("sleepdiv", 1, "divide the package's sleeps (shim build only)")
 	conc := flag.String("conc", "", "run a concurrency scenario: first | progress | lin")
 	seconds := flag.Int("seconds", 3, "duration of the progress scenario")
+	hostile := flag.Bool("hostile", false, "run the malformed-directory scenario (C19); -n = number of byte-level mutations")
+	flag.IntVar(&hostileLimit, "limit", 0, "hostile: number of mutations sampled per configuration (0 = full structural sweep)")
+	alias := flag.Bool("alias", false, "run the aliasing / isolation scenario (C14)")
 	flag.Parse()
 	shimSleepDiv(*sleepdiv)
 
+	if *hostile {
+		runHostile(*root, *seed, *n)
+		return
+	}
+	if *alias {
+		runAlias(*root, *seed, *n)
+		return
+	}
 	if *conc != "" {
 		runConc(*conc, *seed, *n, *root, *out, *seconds)
 		return
@@ -143,7 +164,7 @@ func main() {
 
 	var histories [][]Op
 	var seeds []int64
-	if opts.recover {
+	if opts.recover || opts.golden {
 		histories = append(histories, nil)
 		seeds = append(seeds, *seed)
 	} else if *replay != "" {
@@ -191,7 +212,7 @@ func main() {
 	for i, ops := range histories {
 		fmt.Fprintf(tw, "# history %d seed %d\n", i, seeds[i])
 		dir := filepath.Join(*root, fmt.Sprintf("h%d", i))
-		if opts.recover || opts.keepRoot {
+		if opts.recover || opts.golden || opts.keepRoot {
 			dir = *root
 		}
 		l, st := runHistory(dir, ops, tw, seeds[i])
